@@ -15,7 +15,7 @@ from vf.worker import R
 PROPERTY = "C21"
 LEVEL = "exploration"
 RULE = ("case = (host program AST, pattern table assigning each host message one of (None,None)/(head,None)/(None,tail)/"
-        "(head,tail)/(head re-emitting the original message[,tail]) with head/tail drawn from 6 inserted programs {y, y;y, y;raise, raise, empty, try:y finally:pass}, "
+        "(head,tail)/(head re-emitting the original message[,tail]) with head/tail drawn from 7 inserted programs {y, y;y, y;raise, raise, empty, try:y finally:pass, try:y;y except:raise Other}, "
         "consumer script); hosts: all ASTs <=4 nodes (quick) / <=5 (thorough) + random to 10; 4 pattern tables per host; "
         "scripts: all of length <=2 + single deviations; distinct = (host, table); non-trivial = host yields and the table "
         "inserts at least one head or tail on a message that is reached")
@@ -39,7 +39,8 @@ MANIFEST = {
 
 # no inserted plan yields inside a finally: what happens when such a plan is closed is Python's "generator ignored
 # GeneratorExit" territory, which the documented contract does not cover
-INSERTED = [["y"], ["seq", ["y"], ["y"]], ["seq", ["y"], ["raise"]], ["raise"], ["seq"], ["tf", ["y"], ["seq"]]]
+INSERTED = [["y"], ["seq", ["y"], ["y"]], ["seq", ["y"], ["raise"]], ["raise"], ["seq"], ["tf", ["y"], ["seq"]],
+            ["te", ["seq", ["y"], ["y"]], "new", ["seq"]]]  # the last one translates an exception thrown at it into another
 PATTERNS = ["--", "H-", "-T", "HT", "O-", "OT"]
 
 
